@@ -59,6 +59,9 @@ type NodeOpts struct {
 	Filter    []string
 	Prefetch  int
 	Configure func(*litefs.Store)
+	// MakeLeaser, if set, replaces the scripted lease service for this node (static
+	// leaser, Consul leaser). It is called once the node's HTTP address is known.
+	MakeLeaser func(name, advertiseURL string) (litefs.Leaser, error)
 }
 
 // CNode is one cluster member.
@@ -141,6 +144,14 @@ func (n *CNode) Start() error {
 	}
 	n.URL = n.Server.URL()
 	n.Leaser.SetAdvertiseURL(n.URL)
+	if n.Opts.MakeLeaser != nil {
+		l, err := n.Opts.MakeLeaser(n.Name, n.URL)
+		if err != nil {
+			_ = n.Server.Close()
+			return err
+		}
+		n.Store.Leaser = l
+	}
 	n.Server.Serve()
 	if err := n.Store.Open(); err != nil {
 		_ = n.Server.Close()
